@@ -5,8 +5,9 @@
     CPython by property C01).  On top of it this file models what erg adds at run time:
       - the *wrapper*: codegen.rs (emit_expr / should_wrap) calls the class of the static type on the result of every
         operator, method and call expression; of those classes only Nat can fail: `Nat(v)` raises
-        "ValueError: Nat can't be negative" ([EWrapValue]).  The static type is the checker's ([infer]), looked up at
-        the node, exactly as the real code generator consumes the real checker's annotation;
+        "ValueError: Nat can't be negative" ([EWrapValue]).  The static type is the checker's ([infer] with the
+        operator table as declared, strict = false), looked up at the node, exactly as the real code generator
+        consumes the real checker's annotation; [strict] only decides which programs are accepted ([run_prog]);
       - builtin methods on plain values (a missing method is AttributeError);
       - user functions: a definition captures the environment of its definition point; defaults are evaluated at
         definition time; a call binds positional arguments then defaults (arity mismatch: TypeError);
@@ -133,7 +134,6 @@ Fixpoint bind_args (ps : list (Z * ety * option value)) (args : list value) : op
 Definition vparam_tys (ps : list (Z * ety * option value)) : tenv := map (fun p => (fst (fst p), snd (fst p))) ps.
 
 Section Level.
-  Variable strict : bool.
   Variable callf : Z -> list value -> rs value.
 
   Fixpoint eval (FS : fenv_t) (G : tenv) (en : env) (e : tm) {struct e} : rs value :=
@@ -142,7 +142,7 @@ Section Level.
       | [] => R_ok []
       | x :: r => rbind (eval FS G en x) (fun v => rbind (evals r) (fun vs => R_ok (v :: vs)))
       end in
-    let w := wrapv (infer strict FS G e) in
+    let w := wrapv (infer false FS G e) in
     match e with
     | XLit l => R_ok (lit_value l)
     | XVar x => match lookup x en with Some v => R_ok v | None => R_err EName end
@@ -173,7 +173,7 @@ Section Level.
     match ls with
     | [] => R_ok (G, en)
     | (x, e) :: r =>
-      match infer strict FS G e with
+      match infer false FS G e with
       | None => R_err EStatic
       | Some t => rbind (eval FS G en e) (fun v => run_locals FS ((x, t) :: G) ((x, v) :: en) r)
       end
@@ -181,7 +181,7 @@ Section Level.
 End Level.
 
 (** calls: one fuel unit per nested call; the callee runs with the functions defined before it *)
-Fixpoint callf_n (strict : bool) (n : nat) (F : fenv) (f : Z) (args : list value) : rs value :=
+Fixpoint callf_n (n : nat) (F : fenv) (f : Z) (args : list value) : rs value :=
   match n with
   | O => R_fuel
   | S n' =>
@@ -192,9 +192,9 @@ Fixpoint callf_n (strict : bool) (n : nat) (F : fenv) (f : Z) (args : list value
       | None => R_err EType
       | Some penv =>
         let FS := sigs Frest in
-        let call := callf_n strict n' Frest in
-        rbind (run_locals strict call FS (vparam_tys (fd_ps d) ++ fd_tenv d) (penv ++ fd_env d) (fd_locals d))
-              (fun ge => eval strict call FS (fst ge) (snd ge) (fd_res d))
+        let call := callf_n n' Frest in
+        rbind (run_locals call FS (vparam_tys (fd_ps d) ++ fd_tenv d) (penv ++ fd_env d) (fd_locals d))
+              (fun ge => eval call FS (fst ge) (snd ge) (fd_res d))
       end
     end
   end.
@@ -224,13 +224,12 @@ Fixpoint for_loop (run_body : state -> sres) (v : Z) (t : ety) (items : list val
   end.
 
 Section Exec.
-  Variable strict : bool.
   Variable fuel : nat.
 
   Definition ev (s : state) (e : tm) : rs value :=
-    eval strict (callf_n strict fuel (s_F s)) (sigs (s_F s)) (s_G s) (s_en s) e.
+    eval (callf_n fuel (s_F s)) (sigs (s_F s)) (s_G s) (s_en s) e.
   Definition evs (s : state) (es : list tm) : rs (list value) :=
-    evals strict (callf_n strict fuel (s_F s)) (sigs (s_F s)) (s_G s) (s_en s) es.
+    evals (callf_n fuel (s_F s)) (sigs (s_F s)) (s_G s) (s_en s) es.
 
   Fixpoint eval_defaults (s : state) (ps : list (Z * ety * option tm)) : rs (list (Z * ety * option value)) :=
     match ps with
@@ -247,7 +246,7 @@ Section Exec.
       end in
     match x with
     | TDef v _ e =>
-      match infer strict (sigs (s_F s)) (s_G s) e with
+      match infer false (sigs (s_F s)) (s_G s) e with
       | None => S_err EStatic (s_out s)
       | Some t => with_val s (ev s e) (fun val => S_ok (mkSt (s_F s) ((v, t) :: s_G s) ((v, val) :: s_en s) (s_out s)))
       end
@@ -259,7 +258,7 @@ Section Exec.
       end
     | TAssert e => with_val s (ev s e) (fun v => if truthy v then S_ok s else S_err EAssert (s_out s))
     | TFun f _ ps ret locals res =>
-      match fun_ret strict (sigs (s_F s)) (s_G s) ps ret locals res with
+      match fun_ret false (sigs (s_F s)) (s_G s) ps ret locals res with
       | None => S_err EStatic (s_out s)
       | Some r =>
         match eval_defaults s ps with
@@ -275,7 +274,7 @@ Section Exec.
         | bad => bad
         end)
     | TFor v it body =>
-      match infer strict (sigs (s_F s)) (s_G s) it with
+      match infer false (sigs (s_F s)) (s_G s) it with
       | Some (T_List t _) =>
         with_val s (ev s it) (fun vit =>
           match vit with
@@ -300,7 +299,7 @@ Definition init_state : state := mkSt [] [] [] [].
 
 Definition run_prog (strict : bool) (fuel : nat) (p : prog) : outcome :=
   if typecheck strict p then
-    match exec_block strict fuel p init_state with
+    match exec_block fuel p init_state with
     | S_ok s => (rev (s_out s), Exit0)
     | S_err e out => (rev out, Uncaught e)
     | S_fuel out => (rev out, FuelOut)
@@ -310,7 +309,7 @@ Definition run_prog (strict : bool) (fuel : nat) (p : prog) : outcome :=
 (* the final state (bindings), for property C34 *)
 Definition run_state (strict : bool) (fuel : nat) (p : prog) : option state :=
   if typecheck strict p then
-    match exec_block strict fuel p init_state with S_ok s => Some s | _ => None end
+    match exec_block fuel p init_state with S_ok s => Some s | _ => None end
   else None.
 
 Definition err_code (e : err) : Z :=
